@@ -376,6 +376,10 @@ func clientJar(s *simrt.Sim, info *harness.RunInfo) {
 	// the server sets whatever the request asks for through X-Set headers
 	app := fiber.New()
 	app.Get("/*", func(c fiber.Ctx) error {
+		for _, v := range c.GetReqHeaders()["X-Raw-Set"] {
+			// a Set-Cookie line as another server implementation may write it
+			c.Response().Header.Add("Set-Cookie", strings.Clone(v))
+		}
 		for _, v := range c.GetReqHeaders()["X-Set"] {
 			// name|value|path|maxage
 			f := strings.Split(v, "|")
@@ -478,6 +482,9 @@ func clientJar(s *simrt.Sim, info *harness.RunInfo) {
 			if expSet[e] == 0 {
 				// why is it wrong?
 				nm := strings.SplitN(e, "=", 2)[0]
+				if strings.HasPrefix(nm, "gone") {
+					return "C18.jar.server-expired-cookie-stored", fmt.Sprintf("cookie %s is returned although the only Set-Cookie line that ever carried it expired it on arrival (Max-Age=-1 / an Expires date in 1994)", e)
+				}
 				pth := e[strings.LastIndexByte(e, ';')+1:]
 				for _, m := range model[hostKey(host)] {
 					if m.name+"="+m.value+";"+m.path == e {
@@ -617,6 +624,15 @@ func clientJar(s *simrt.Sim, info *harness.RunInfo) {
 				sets = append(sets, fmt.Sprintf("%s|%s|%s|%d", e.name, e.value, e.path, ma))
 				req.AddHeader("X-Set", sets[len(sets)-1])
 			}
+			if s.Chance(200) {
+				// in front of them a cookie that is expired on arrival, in a spelling fasthttp's parser does not
+				// accept (a negative Max-Age, an RFC 850 date): whatever a client makes of the line, it must
+				// never hand the cookie out
+				raw := fmt.Sprintf("gone%d=v; %s; Path=%s", i, simrt.PickS(s, "Max-Age=-1", "Expires=Sunday, 06-Nov-94 08:49:37 GMT"), paths[s.Draw(len(paths))])
+				req.AddHeader("X-Raw-Set", raw)
+				sets = append(sets, "raw: "+raw)
+				s.Count("probe_set_cookie_line_fasthttp_cannot_parse")
+			}
 			keepBoundary = false
 			cands := [][]string{expect(hst, rp, now), nil, expectRule(hst, rp, now, true), nil}
 			keepBoundary = true
@@ -662,7 +678,13 @@ func clientJar(s *simrt.Sim, info *harness.RunInfo) {
 					s.Fail("C18.jar.path-direction", "%s: Cookie header on the wire %v, reference jar says %v: the jar returns the cookies whose path starts with the request path instead of those whose path is a prefix of it", desc, wire, cands[0])
 				}
 			default:
-				s.Fail("C18.jar.wire", "%s: Cookie header on the wire %v, jar should hold %v for that URL", desc, wire, cands[0])
+				id := "C18.jar.wire"
+				for _, w := range wire {
+					if strings.HasPrefix(w, "gone") {
+						id = "C18.jar.server-expired-cookie-stored"
+					}
+				}
+				s.Fail(id, "%s: Cookie header on the wire %v, jar should hold %v for that URL", desc, wire, cands[0])
 			}
 			resp.Close() // also releases the request
 			for _, e := range entries {
@@ -983,8 +1005,10 @@ type fidClient struct {
 	hdr, q  *fidMulti
 	ck, pp  *fidSingle
 	ua, ref string
-	timeout time.Duration
-	baseURL bool
+	// the client-level user agent / referer given through the generic header API instead of the dedicated setter
+	uaViaHeader, refViaHeader bool
+	timeout                   time.Duration
+	baseURL                   bool
 }
 
 type fidReq struct {
@@ -1287,9 +1311,11 @@ func (g *fidGen) client(tag string) *fidClient {
 	cc.pp = g.path(names, tag, false)
 	if s.Chance(600) {
 		cc.ua = g.val(fidUAAlpha, tag)
+		cc.uaViaHeader = s.Chance(250)
 	}
 	if s.Chance(600) {
 		cc.ref = g.val(fidRefAlpha, tag)
+		cc.refViaHeader = s.Chance(250)
 	}
 	cc.timeout = simrt.PickS(s, 0, 2*time.Second, 4*time.Second)
 	cc.baseURL = s.Chance(300)
@@ -1450,10 +1476,16 @@ func (cc *fidClient) apply(c *client.Client) {
 	fidApply(cc.q.calls, fidParamAPIClient(c))
 	fidApply(cc.ck.calls, fidMultiAPI{set: func(k, v string) { c.SetCookie(k, v) }, setMap: func(m map[string]string) { c.SetCookies(m) }, setStruct: func(v any) { c.SetCookiesWithStruct(v) }})
 	fidApply(cc.pp.calls, fidMultiAPI{set: func(k, v string) { c.SetPathParam(k, v) }, setMap: func(m map[string]string) { c.SetPathParams(m) }, setStruct: func(v any) { c.SetPathParamsWithStruct(v) }})
-	if cc.ua != "" {
+	switch {
+	case cc.ua != "" && cc.uaViaHeader:
+		c.SetHeader("User-Agent", cc.ua)
+	case cc.ua != "":
 		c.SetUserAgent(cc.ua)
 	}
-	if cc.ref != "" {
+	switch {
+	case cc.ref != "" && cc.refViaHeader:
+		c.SetHeader("Referer", cc.ref)
+	case cc.ref != "":
 		c.SetReferer(cc.ref)
 	}
 	if cc.timeout > 0 {
